@@ -15,7 +15,7 @@ from ..world import World, digest_obj
 
 ALPHA = [b"a", b"\r", b"\n", b"\x00", b"\xff"]
 PLAIN_ALGOS = ["md5", "sha1", "sha256", "blake3", "MD5", "Sha256", "BLAKE3", "sha512", "sha3_256",
-               "blake2b", "sha224"]
+               "blake2b", "sha224", "md5-sha1", "MD5-SHA1"]   # md5-sha1 shares the "md5-" prefix of the legacy name
 CHUNKS = [1, 2, 3, 511, 512, 513, 2**20, -1]
 
 
@@ -166,6 +166,9 @@ def check_string(s, full):
                 viol.append(("dos2unix-changed-binary", f"data={s!r}"))
         elif b"\r" not in s and dg != ref.md5(s):
             viol.append(("dos2unix-changed-crfree-text", f"data={s!r}"))
+        elif dg != ref.md5(s.replace(b"\r\n", b"\n")):
+            # text that fits in one read: exactly the CR LF pairs are folded (a lone CR stays)
+            viol.append(("dos2unix-digest-is-not-md5-of-crlf-folded-text", f"data={s!r}"))
         d2 = fobj_md5(io.BytesIO(s), chunk_size=rd, name="md5-dos2unix")
         if d2 != dg:
             viol.append(("dos2unix-driver-differs-from-stream", f"data={s!r}"))
